@@ -421,6 +421,9 @@ class Printer:
                 if isinstance(k.value, ast.Dict) and all(isinstance(x, ast.Constant) and isinstance(x.value, str) for x in k.value.keys):
                     for kk, vv in zip(k.value.keys, k.value.values):
                         kws.append((kk.value, self.s(vv)))
+                elif isinstance(k.value, ast.Call) and core.dotted(k.value.func) == "dict" and len(k.value.args) == 1 and not k.value.keywords \
+                        and not isinstance(k.value.args[0], ast.Starred):
+                    kws.append(("**", self.s(k.value.args[0])))        # f(**dict(m)) passes what f(**m) passes
                 else:
                     kws.append(("**", self.s(k.value)))
             else:
@@ -1176,7 +1179,7 @@ class Exec:
             elif isinstance(v, ast.Call) and not any(isinstance(a, ast.Starred) for a in v.args) and not any(k.arg is None for k in v.keywords) \
                     and len(v.args) + len(v.keywords) >= 3:
                 names = self.printer.signature(v)
-                items.append(("exit", kind, ast.Call(v.func, [], [])))
+                items.append(("exit", kind, ast.Call(ast.Name("$split", ast.Load()), [v.func], [])))
                 for i, a in enumerate(v.args):
                     items.append(("exitarg", names[i] if names is not None and i < len(names) else f"[{i}]", a))
                 for k in v.keywords:
@@ -1852,6 +1855,70 @@ def leaves_of(m: "core.Mod", qual: str) -> list[tuple[dict[str, bool], list[tupl
     out = []
     for conds, items in leaves:
         out.append(({detok(k, 10): v for k, v in conds}, [tuple(detok(x, 10) if isinstance(x, str) else x for x in it) for it in items]))
+    return out
+
+
+def conds_compatible(c1: dict[str, bool], c2: dict[str, bool]) -> bool:
+    """can both readable condition sets hold at once?  (same atoms with the same truth; isinstance atoms on the same value
+    respect the class hierarchy of the analysed tree)"""
+    import re as _re
+    both = dict(c1)
+    for a, v in c2.items():
+        if both.setdefault(a, v) != v:
+            return False
+    inst: dict[str, list[tuple[str, bool]]] = {}
+    for a, v in both.items():
+        mo = _re.fullmatch(r"isinstance\((.+), ([\w.]+)\)", a)
+        if mo:
+            inst.setdefault(mo.group(1), []).append((mo.group(2).split(".")[-1], v))
+    for x, lst in inst.items():
+        for ca, va in lst:
+            for cb, vb in lst:
+                if va and not vb and (ca == cb or ca in subclasses_of(cb)):
+                    return False        # an instance of ca is an instance of its base cb
+    return True
+
+
+def call_arms(m: "core.Mod", qual: str) -> list[tuple[dict[str, bool], str, dict[str, str], str | None]]:
+    """the outcomes of a function whose every exit returns a call, read off its leaves:
+    [(conditions, callee text, {parameter: canonical argument text}, text of a `**mapping` argument | None)].
+    Arguments the engine expanded on their own ('exitarg' leaves) are put back on the arm whose conditions they are
+    compatible with; Giveup when that is ambiguous or an exit is not a call."""
+    lv = leaves_of(m, qual)
+    exits = [(c, it[2]) for c, items in lv for it in items if it[0] == "exit" and it[1] == "return"]
+    others = [it for c, items in lv for it in items if it[0] == "exit" and it[1] != "return" and "raise" not in str(it[1])]
+    if others:
+        raise Giveup(f"{qual}: an exit that does not return ({others[0][1]})")
+    eargs = [(c, it[1], it[2]) for c, items in lv for it in items if it[0] == "exitarg"]
+    out = []
+    for conds, text in exits:
+        try:
+            node = ast.parse(text.replace("**=", "**").replace("$split(", "_split_("), mode="eval").body
+        except SyntaxError:
+            raise Giveup(f"{qual}: exit `{text[:60]}`")
+        if not isinstance(node, ast.Call):
+            raise Giveup(f"{qual}: exit `{text[:60]}` is not a call")
+        split = isinstance(node.func, ast.Name) and node.func.id == "_split_"
+        if split:
+            node = ast.Call(node.args[0], [], [])
+        kws: dict[str, str] = {}
+        star = None
+        for i, a in enumerate(node.args):
+            kws[f"<positional {i}>"] = ast.unparse(a)
+        for k in node.keywords:
+            if k.arg is None:
+                star = ast.unparse(k.value)
+            else:
+                kws[k.arg] = ast.unparse(k.value)
+        byname: dict[str, set[str]] = {}
+        for c2, name, val in eargs:
+            if split and conds_compatible(conds, c2):
+                byname.setdefault(name, set()).add(val)
+        for name, vals in byname.items():
+            if len(vals) != 1:
+                raise Giveup(f"{qual}: argument {name} of the exit under {conds} is ambiguous")
+            kws[name] = next(iter(vals))
+        out.append((conds, ast.unparse(node.func), kws, star))
     return out
 
 
